@@ -12,14 +12,14 @@ tvars == <<vars, l>>
 
 Ev == Trace[l]
 IsEvent(e) == l <= Len(Trace) /\ Trace[l].ev = e /\ l' = l + 1
-CfgOf(e) == [imports |-> e.imports, req |-> e.req, plan |-> e.plan, par |-> e.par]
+CfgOf(e) == [imports |-> e.imports, req |-> e.req, plan |-> e.plan, par |-> e.par, ovr |-> e.ovr]
 Top(f) == stack[f][Len(stack[f])]
 
 TraceInit ==
   /\ Trace[1].ev = "Config"
   /\ l = 2
   /\ LET v == InitVal(CfgOf(Trace[1])) IN
-    /\ imports = v.imports /\ req = v.req /\ plan = v.plan /\ par = v.par
+    /\ imports = v.imports /\ req = v.req /\ plan = v.plan /\ par = v.par /\ ovr = v.ovr
     /\ created = v.created /\ pc = v.pc /\ idx = v.idx /\ blocked = v.blocked /\ stack = v.stack
     /\ checked = v.checked /\ sem = v.sem /\ holding = v.holding /\ out = v.out
     /\ reports = v.reports /\ mpc = v.mpc /\ midx = v.midx /\ mres = v.mres
@@ -29,7 +29,7 @@ TraceInit ==
 TConfig ==
   /\ IsEvent("Config") /\ l > 1 /\ Trace[l - 1].ev = "End"
   /\ LET v == InitVal(CfgOf(Ev)) IN
-    /\ imports' = v.imports /\ req' = v.req /\ plan' = v.plan /\ par' = v.par
+    /\ imports' = v.imports /\ req' = v.req /\ plan' = v.plan /\ par' = v.par /\ ovr' = v.ovr
     /\ created' = v.created /\ pc' = v.pc /\ idx' = v.idx /\ blocked' = v.blocked /\ stack' = v.stack
     /\ checked' = v.checked /\ sem' = v.sem /\ holding' = v.holding /\ out' = v.out
     /\ reports' = v.reports /\ mpc' = v.mpc /\ midx' = v.midx /\ mres' = v.mres
@@ -43,6 +43,7 @@ TCreate ==
      /\ d \notin created
      /\ \/ mpc = "start" /\ d \in Requested
         \/ \E f \in Files : pc[f] = "loop" /\ imports[f][idx[f]] = d /\ d # f
+        \/ \E f \in Files : pc[f] = "loopdp" /\ d = DP
      /\ created' = created \cup {d}
      /\ pc' = [pc EXCEPT ![d] = "acq"]
   /\ UNCHANGED <<cfgvars, idx, blocked, stack, checked, sem, holding, out, reports, mpc, midx, mres, ctxDone, cancels>>
@@ -58,8 +59,8 @@ TAcquired == IsEvent("Acquired") /\ AcquireOk(Ev.f)
 TParsed ==
   /\ IsEvent("Parsed")
   /\ LET f == Ev.f IN
-     /\ pc[f] = "find" /\ plan[f] = "ok" /\ Ev.imports = imports[f]
-     /\ IF imports[f] = <<>> THEN Find(f) ELSE UNCHANGED vars
+     /\ pc[f] = "find" /\ plan[f] = "ok" /\ Ev.imports = EffImports(f)
+     /\ IF EffImports(f) = <<>> THEN Find(f) ELSE UNCHANGED vars
 
 TSetBlocked ==
   /\ IsEvent("SetBlocked")
@@ -72,6 +73,13 @@ TLoop ==
   /\ LET f == Ev.f IN
      /\ pc[f] = "loop" /\ imports[f][idx[f]] = Ev.dep /\ Ev.dep # f /\ Ev.dep \in created
      /\ Loop(f)
+
+TLoopDP == IsEvent("LoopDP") /\ DP \in created /\ LoopDP(Ev.f)
+
+TWokeDP ==
+  /\ IsEvent("WokeDP")
+  /\ \/ Ev.how = "ready" /\ WaitDPReady(Ev.f)
+     \/ Ev.how = "ctx" /\ WaitDPCtx(Ev.f)
 
 (* getBlockedOn logs under the result's mutex and does not know the reader: TLC infers it *)
 TReadBlocked ==
@@ -146,7 +154,7 @@ TEnd ==
 
 TraceNext == \/ TConfig \/ TCreate \/ TMainStart \/ TAcquired \/ TParsed \/ TSetBlocked \/ TLoop
              \/ TReadBlocked \/ TLookup \/ TCycle \/ TReleased \/ TWoke \/ TDone \/ TMainWoke
-             \/ TReturn \/ TCancel \/ TEnd
+             \/ TReturn \/ TCancel \/ TEnd \/ TLoopDP \/ TWokeDP
 
 TraceSpec == TraceInit /\ [][TraceNext]_tvars
 
